@@ -347,10 +347,21 @@ func modelOf(out string) string {
 
 func runObligations(sv *Solver, obls []*Obligation) []Result {
 	results := make([]Result, len(obls))
+	// first pass: per function, one incremental solver session over all of its
+	// plain obligations (the function's conditions are parsed once)
+	pre := batchSolve(sv, obls)
 	var wg sync.WaitGroup
 	sem := make(chan struct{}, 12)
 	for i, o := range obls {
 		i, o := i, o
+		if v, ok := pre[o]; ok {
+			results[i] = Result{O: o, V: v}
+			continue
+		}
+		if sv.skip != nil && sv.skip(o) {
+			results[i] = Result{O: o, V: Verdict{Status: "unknown", Solver: "not attempted beyond the incremental pass (never proved on the baseline)"}}
+			continue
+		}
 		wg.Add(1)
 		go func() {
 			defer wg.Done()
@@ -368,8 +379,8 @@ func runObligations(sv *Solver, obls []*Obligation) []Result {
 				if pv.Status != "unsat" {
 					q := o.Gen.QueryPart(o, k, true)
 					want := ""
-					if o.WantSat {
-						want = "cover"
+					if o.WantSat || o.Gen.sweep {
+						want = "cover" // short limit: vacuity checks and sweep obligations
 					}
 					pv = sv.Solve(q, want)
 				}
@@ -395,3 +406,112 @@ func runObligations(sv *Solver, obls []*Obligation) []Result {
 }
 
 func cmdSelftest(args []string) int { fmt.Println("not yet"); return 2 }
+
+
+// batchSolve discharges, per FuncGen, the obligations that need no per-instance
+// rewriting in one incremental z3 session (push / check-sat / pop). Only
+// `unsat` answers are used; everything else goes to the per-obligation portfolio.
+func batchSolve(sv *Solver, obls []*Obligation) map[*Obligation]Verdict {
+	out := map[*Obligation]Verdict{}
+	var mu sync.Mutex
+	byGen := map[*FuncGen][]*Obligation{}
+	var gens []*FuncGen
+	for _, o := range obls {
+		if o.WantSat || len(o.Subst) > 0 || len(o.Extra) > 0 || len(o.Gen.abstractions) > 0 {
+			continue
+		}
+		if _, ok := byGen[o.Gen]; !ok {
+			gens = append(gens, o.Gen)
+		}
+		byGen[o.Gen] = append(byGen[o.Gen], o)
+	}
+	var wg sync.WaitGroup
+	sem := make(chan struct{}, 14)
+	for _, g := range gens {
+		list := byGen[g]
+		if len(list) < 4 {
+			continue
+		}
+		g := g
+		wg.Add(1)
+		go func() {
+			defer wg.Done()
+			sem <- struct{}{}
+			defer func() { <-sem }()
+			// cache lookup first
+			var todo []*Obligation
+			for _, o := range list {
+				allCached := true
+				var v Verdict
+				for k := 0; k < o.NumParts(); k++ {
+					cv, ok := sv.cached(g.QueryPart(o, k, true))
+					if !ok || cv.Status != "unsat" {
+						allCached = false
+						break
+					}
+					v = cv
+				}
+				if allCached {
+					mu.Lock()
+					out[o] = v
+					mu.Unlock()
+				} else {
+					todo = append(todo, o)
+				}
+			}
+			if len(todo) == 0 {
+				return
+			}
+			type chk struct {
+				o    *Obligation
+				part int
+			}
+			var checks []chk
+			var sb strings.Builder
+			var goals strings.Builder
+			for _, o := range todo {
+				for k := 0; k < o.NumParts(); k++ {
+					guard, goal := o.Guard, o.Goal
+					if len(o.Parts) > 0 {
+						guard, goal = o.Parts[k].Guard, o.Parts[k].Goal
+					}
+					goals.WriteString("(push 1)\n")
+					if guard != "" && guard != "true" {
+						goals.WriteString("(assert " + guard + ")\n")
+					}
+					goals.WriteString("(assert (not " + goal + "))\n(check-sat)\n(pop 1)\n")
+					checks = append(checks, chk{o, k})
+				}
+			}
+			sb.WriteString(g.contextText(goals.String()))
+			sb.WriteString(goals.String())
+			per := 3
+			t0 := time.Now()
+			answers := sv.runIncremental(sb.String(), per, len(checks))
+			el := time.Since(t0).Seconds()
+			okAll := map[*Obligation]bool{}
+			seen := map[*Obligation]int{}
+			for i, c := range checks {
+				if _, ok := okAll[c.o]; !ok {
+					okAll[c.o] = true
+				}
+				if i >= len(answers) || answers[i] != "unsat" {
+					okAll[c.o] = false
+				}
+				seen[c.o]++
+			}
+			mu.Lock()
+			for o, ok := range okAll {
+				if ok {
+					out[o] = Verdict{Status: "unsat", Solver: "z3-5.1.0/incremental", Seconds: el / float64(len(checks)) * float64(seen[o])}
+					for k := 0; k < o.NumParts(); k++ {
+						sv.store(g.QueryPart(o, k, true), "unsat", "z3-5.1.0/incremental")
+					}
+				}
+			}
+			mu.Unlock()
+		}()
+	}
+	wg.Wait()
+	return out
+}
